@@ -204,8 +204,9 @@ class SqlalchemyRender:
 
             if op == '||':
                 # sqlalchemy ranks concat with the comparisons, SQL engines rank || above + - * /
-                mul = sa.sql.operators.mul
-                arg0, arg1 = arg0.self_group(against=mul), arg1.self_group(against=mul)
+                # (against mul itself an operand built with * would stay bare: natural self precedent)
+                neg = sa.sql.operators.neg
+                arg0, arg1 = arg0.self_group(against=neg), arg1.self_group(against=neg)
 
             method = methods.get(op)
             if method is not None:
